@@ -610,6 +610,10 @@ def decide(pid, tier, seed):
         tail = "" if (found or any(b for (_, _, _, b) in batch_fail)) else " no-failing-input-found"
         print(f"VIOLATION property={pid} replay={replay}{tail}")
 
+    if not violation:
+        stale = os.path.join(ROOT, "replays", f"{pid}-{tier}-{seed}.replay")
+        if os.path.exists(stale):
+            os.unlink(stale)
     ev = dict(property_id=pid, tier=tier, seed=seed, level="proof", wall_s=round(time.time() - t0, 2),
               violations=(0 if not violation else len(diffs) + len(monfails) + len(batch_fail) + (0 if pr["ok"] else 1)),
               coverage=dict(
